@@ -57,6 +57,13 @@ CHECKS = {
         "Trusted: declaration model in mc/props/c12.py (incl. which operation corners own a vertex under merged patches), foamdict reader. delete only while un-assembled, moves only while assembled.",
         "DESIGN.md 5 C12",
     ),
+    "C08": (
+        "exploration",
+        "exhaustive enumeration of a finite numeric lattice (circle frames x centres x radii x signed sector angles incl. both sides of pi x middle-point fractions) on the real edge classes, analytic circle as reference; chord bound over every edge kind",
+        "Angle-and-axis arcs: middle point on the described circle, half-way on the side the sense prescribes, length R|theta|; origin arcs likewise for angles in (0,pi); three-point arcs: length R x included angle on the side of the given point for every fraction 0.05..0.95; every edge kind's length >= chord.",
+        "Says nothing off the lattice. Reference: rotation formula in mc/props/c08.py.",
+        "DESIGN.md 5 C08",
+    ),
     "C02": (
         "model_checking",
         "stateless model checking of the implementation: choice-point explorer over set iteration orders (iterative deviation bounding) x exhaustive insertion orders / corner numberings / chop placements of small lattice assemblies, edge-family reference model",
